@@ -97,7 +97,11 @@ func c12UnrankStmt(p []int64, s int, j int64) c12Stmt {
 	return c12Stmt{leaf: -1, block: int(j / p[s-1]), body: c12Unrank(p, s-1, j%p[s-1])}
 }
 
-func c12Source(prog []c12Stmt, sb *strings.Builder) {
+// c12Quiet: when set, probes are emitted (and modelled) at the top level only; inside block bodies the only
+// observer is the included file, so no body mentions forloop, x, y or i by name unless the program itself does.
+func c12Source(prog []c12Stmt, sb *strings.Builder) { c12SourceQ(prog, sb, false, 0) }
+
+func c12SourceQ(prog []c12Stmt, sb *strings.Builder, quiet bool, depth int) {
 	for _, st := range prog {
 		if st.leaf >= 0 {
 			switch st.leaf {
@@ -131,12 +135,29 @@ func c12Source(prog []c12Stmt, sb *strings.Builder) {
 				open, close = "{% if false %}", "{% endif %}"
 			}
 			sb.WriteString(open)
-			sb.WriteString(c12Probe)
-			c12Source(st.body, sb)
+			if !quiet {
+				sb.WriteString(c12Probe)
+			}
+			c12SourceQ(st.body, sb, quiet, depth+1)
 			sb.WriteString(close)
 		}
-		sb.WriteString(c12Probe)
+		if !quiet || depth == 0 {
+			sb.WriteString(c12Probe)
+		}
 	}
+}
+
+// c12IncludeInBlock: some include statement sits inside a block body.
+func c12IncludeInBlock(prog []c12Stmt, depth int) bool {
+	for _, st := range prog {
+		if st.leaf == sInclude && depth > 0 {
+			return true
+		}
+		if st.leaf < 0 && c12IncludeInBlock(st.body, depth+1) {
+			return true
+		}
+	}
+	return false
 }
 
 // ---- reference interpreter: one flat store
@@ -146,8 +167,20 @@ type c12Store struct {
 	fl      string // forloop.index as printed ("" outside loops); "M" when forloop was assigned 'mine'
 }
 
-func c12Run(prog []c12Stmt, st *c12Store, out *strings.Builder) {
-	probe := func() { out.WriteString("<" + st.x + "|" + st.y + "|" + st.i + "|" + st.fl + ">") }
+func c12Run(prog []c12Stmt, st *c12Store, out *strings.Builder) { c12RunQ(prog, st, out, false, 0) }
+
+func c12RunQ(prog []c12Stmt, st *c12Store, out *strings.Builder, quiet bool, depth int) {
+	emit := func() { out.WriteString("<" + st.x + "|" + st.y + "|" + st.i + "|" + st.fl + ">") }
+	probe := func() { // at the start of a body
+		if !quiet {
+			emit()
+		}
+	}
+	after := func() { // after a statement
+		if !quiet || depth == 0 {
+			emit()
+		}
+	}
 	for _, s := range prog {
 		if s.leaf >= 0 {
 			switch s.leaf {
@@ -173,7 +206,7 @@ func c12Run(prog []c12Stmt, st *c12Store, out *strings.Builder) {
 				save := out
 				out = &buf
 				probe()
-				c12Run(s.body, st, out)
+				c12RunQ(s.body, st, out, quiet, depth+1)
 				out = save
 				st.x = buf.String()
 			case bForX, bTablerow:
@@ -181,7 +214,7 @@ func c12Run(prog []c12Stmt, st *c12Store, out *strings.Builder) {
 				for k := 1; k <= 2; k++ {
 					st.x, st.fl = strconv.Itoa(k), strconv.Itoa(k)
 					probe()
-					c12Run(s.body, st, out)
+					c12RunQ(s.body, st, out, quiet, depth+1)
 				}
 				st.x, st.fl = oldX, oldFl
 			case bForIBreak:
@@ -189,7 +222,7 @@ func c12Run(prog []c12Stmt, st *c12Store, out *strings.Builder) {
 				for k := 1; k <= 3; k++ {
 					st.i, st.fl = strconv.Itoa(k), strconv.Itoa(k)
 					probe()
-					c12Run(s.body, st, out)
+					c12RunQ(s.body, st, out, quiet, depth+1)
 					if st.i == "2" { // {% if i == 2 %}{% break %}: i may have been changed only by an inner loop, which restores it
 						break
 					}
@@ -199,15 +232,15 @@ func c12Run(prog []c12Stmt, st *c12Store, out *strings.Builder) {
 				oldFl := st.fl
 				st.fl = "1"
 				probe()
-				c12Run(s.body, st, out)
+				c12RunQ(s.body, st, out, quiet, depth+1)
 				st.fl = oldFl
 			case bIfTrue:
 				probe()
-				c12Run(s.body, st, out)
+				c12RunQ(s.body, st, out, quiet, depth+1)
 			case bIfFalse:
 			}
 		}
-		probe()
+		after()
 	}
 }
 
@@ -225,12 +258,16 @@ func c12Families(tier string) []explore.Family {
 	var fams []explore.Family
 	for n := 0; n <= N; n++ {
 		n := n
-		fams = append(fams, explore.Family{Name: fmt.Sprintf("programs-size%d", n), Count: p[n] * 2, Run: func(i int64, r *explore.Rec) {
+		fams = append(fams, explore.Family{Name: fmt.Sprintf("programs-size%d", n), Count: p[n] * 4, Run: func(i int64, r *explore.Rec) {
 			prebound := i%2 == 1
-			prog := c12Unrank(p, n, i/2)
+			quiet := (i/2)%2 == 1
+			prog := c12Unrank(p, n, i/4)
+			if quiet && !c12IncludeInBlock(prog, 0) {
+				return // without probes in bodies only an include inside a block observes anything new
+			}
 			var sb strings.Builder
 			sb.WriteString(c12Probe)
-			c12Source(prog, &sb)
+			c12SourceQ(prog, &sb, quiet, 0)
 			src := sb.String()
 			bind := map[string]any{}
 			st := &c12Store{}
@@ -240,13 +277,13 @@ func c12Families(tier string) []explore.Family {
 			}
 			var want strings.Builder
 			want.WriteString("<" + st.x + "|" + st.y + "|" + st.i + "|" + st.fl + ">")
-			c12Run(prog, st, &want)
+			c12RunQ(prog, st, &want, quiet, 0)
 			r.Eval()
 			r.Transition()
 			r.Trace()
 			o := Render(c12.eng, src, bind)
 			desc := func() any {
-				return map[string]any{"template": src, "prebound": prebound, "included_file": c12IncBody}
+				return map[string]any{"template": src, "prebound": prebound, "probes_in_bodies": !quiet, "included_file": c12IncBody}
 			}
 			got := c12TableTags.ReplaceAllString(o.Out, "")
 			r.State(fmt.Sprintf("store:x=%.4s,y=%.4s", st.x, st.y))
@@ -327,7 +364,7 @@ func init() {
 	explore.Register(&explore.Prop{
 		ID:    "C12",
 		Level: "model_checking",
-		Rule: "all programs of <=4 (quick) / <=5 (thorough) statements (block bodies count) over {assign x=1, assign x=2, assign y=x, include, assign forloop='mine', capture x, for x (shadowing), for i with break, for forloop, tablerow x, if true, if false}, a probe reading x, y, i and forloop.index after every statement and at the start of every body, " +
+		Rule: "all programs of <=4 (quick) / <=5 (thorough) statements (block bodies count) over {assign x=1, assign x=2, assign y=x, include, assign forloop='mine', capture x, for x (shadowing), for i with break, for forloop, tablerow x, if true, if false}, a probe reading x, y, i and forloop.index after every statement and at the start of every body - and, for programs with an include inside a block, a second rendering in which block bodies carry NO probes, so that the included file is the only observer and no body mentions forloop or the variables by name unless the program does, " +
 			"each with x,y initially unbound and bound; oracle = reference interpreter with one flat store and save/restore of loop variable and forloop; every legal identifier of <=3 symbols over {a,b,_,1,-,?} as assign/capture/loop variable; plus the capture-equivalence law on every program and on fragment pairs from other generators; " +
 			"state = reference store after the program; transition = one program rendered",
 		Assumptions: []string{
